@@ -3,7 +3,7 @@
    blacklists the victim, records the SITUATION the blacklisting found:
 
        pos   : lifecycle position of the victim at that instant (Pos)
-       how   : api | direct
+       how   : api | direct | both (direct Add first, then BlacklistPeer of the same peer)
        by    : the message in the pipeline names the victim as forwarder (origin) or as author
        stage : pipeline stage of that message at that instant (none if nothing is in flight)
 
@@ -28,7 +28,12 @@ Flying == {m \in Msgs : stage[m] \in InFlight /\ (Fwd[m] = Victim \/ Author[m] =
 
 Situations(how) ==
     LET pos == Pos(Victim) IN
-    IF pos = "other" \/ bl[Victim] THEN {}
+    IF pos = "other" THEN {}
+    ELSE IF bl[Victim]
+      THEN \* BlacklistPeer of a peer that was added directly before ("both"); emitted with nothing in flight
+           IF how = "api" /\ ~blapi[Victim] /\ Flying = {}
+             THEN {[pos |-> pos, how |-> "both", by |-> b, stage |-> "none"] : b \in {"origin", "author"}}
+             ELSE {}
     ELSE IF Flying = {}
       THEN {[pos |-> pos, how |-> how, by |-> b, stage |-> "none"] : b \in {"origin", "author"}}
       ELSE {[pos |-> pos, how |-> how, by |-> By(m), stage |-> stage[m]] : m \in Flying}
